@@ -245,10 +245,13 @@ CORPUS = [  # (context, testcase) of the listed defects: always exported, at the
     ("primitives.lax", "cumprod_i32_axis2"), ("primitives.lax", "cumprod_f32_axism1_reverse"),
     ("primitives.lax", "bitcast_scalar_f32_to_i32"), ("primitives.lax", "bitcast_tensor_i32_to_f32"),
     ("primitives.jnp", "jnp_cumprod_axis1"),
+    # not opset related (they fail at every opset, see C03) but met by this check's oracles as well
+    ("primitives.lax", "reduce_sum_dtype_f64"), ("primitives.lax", "dus_tensorscatter_axis1_opset24"),
+    ("primitives.random", "random_bits_uint32_f64"),
 ]
 
 NONDETERMINISTIC_OPS = {"RandomNormal", "RandomUniform", "RandomNormalLike", "RandomUniformLike",
-                        "Multinomial", "Bernoulli"}
+                        "Multinomial", "Bernoulli", "Dropout"}
 
 
 def _component_of(desc: dict) -> tuple[str, str]:
@@ -268,7 +271,7 @@ def export_plan(chk: Check, rng: common.Rng, thorough: bool) -> list:
         tp = by_key.get(key)
         if tp is None:
             continue
-        for v in (21, 23, 26):
+        for v in (21, 23, 24, 26):
             plan.append((progs.plugin_desc(tp), progs.plugin_cfg(tp, opset=v)))
     for name in GATE_PROGRAMS:
         for v in opsets:
@@ -298,8 +301,11 @@ def numeric_agreement(ex, ref, rng_np) -> Optional[dict]:
     """Run both exports in ORT on the same feeds; None = agree / not comparable."""
     import oracles
     import progs
-    ops = {n.op_type for n in ex.proto.graph.node} | {n.op_type for n in ref.proto.graph.node}
-    if ops & NONDETERMINISTIC_OPS:
+    import modeltree
+    ops = set()
+    for m in (ex.proto, ref.proto):
+        ops |= {n["op"] for _, n in modeltree.iter_nodes(modeltree.from_proto(m, with_vinfo=False))}
+    if ops & NONDETERMINISTIC_OPS:      # any depth, function bodies included
         return None
     for m in (ex.proto, ref.proto):
         if not oracles.ort_supports_opset(oracles.default_opset(m)):
